@@ -1,6 +1,7 @@
 CONSTANT MaxLen = 100000
 CONSTANT MaxK = 64
 CONSTANT Syms = {"A"}
+CONSTANT NIters = {1, 2, 20}
 SPECIFICATION TraceSpec
 INVARIANT TraceConsumed
 INVARIANT TResetIsFresh
